@@ -8,6 +8,7 @@ from ..resolve import Resolver, Ctx
 from ..escape import Escape, fmt_chain, items_sorted
 from ..q import find, match, try_const, tests, calls
 from ..core import key
+from ..buf import FROM, names_for
 from .. import triage
 
 DRIVERS = ['nfc.clf.pn531.Device', 'nfc.clf.pn532.Device', 'nfc.clf.pn533.Device', 'nfc.clf.rcs956.Device',
@@ -69,9 +70,28 @@ def _dict_lookups(prog):
     return sites, n
 
 
+# host link buffers: what the reader chip / transport returns is indexed only behind a length test (IOError otherwise)
+HOST_BUFFERS = [
+    ('nfc.clf.acr122.Chipset.command', FROM('self.ccid_xfr_block'), 'CCID payload'),
+    ('nfc.clf.acr122.Chipset.ccid_xfr_block', FROM('self.transport.read'), 'CCID response'),
+    ('nfc.clf.pn53x.Chipset.command', FROM('self.transport.read'), 'PN53x response frame'),
+    ('nfc.clf.rcs380.Chipset.send_command', FROM('self.transport.read'), 'RC-S380 response frame'),
+]
+
+
 def rule_escape(report, prog, res, tier):
     n_roots = 0
     lookups, n_lookups = _dict_lookups(prog)
+    from .. import buf
+    nb = 0
+    for q, spec, src in HOST_BUFFERS:
+        f = prog.functions.get(q)
+        if f is None:
+            report.deficits.append('C13-R1: host buffer table names a function that no longer exists: ' + q)
+            continue
+        for v in names_for(f, spec):
+            nb += buf.check(report, prog, f, v, 'C13-R1', src, collect=lookups)
+    report.floor('C13-R1 host buffer reads', nb, 5)
     report.stats['dict_table_lookups'] = n_lookups
     report.floor('C13-R1 table lookups', n_lookups, 3)
 
